@@ -45,6 +45,11 @@ def main():
         table = None if case.get('table') is None else {int(k): v for k, v in case['table']}
         calls = []
         for what in case['calls']:
+            if isinstance(what, dict) and 'set_table' in what:   # the caller edits the SAME table object in place
+                table.clear()
+                table.update({int(k): v for k, v in what['set_table']})
+                calls.append({'call': 'set_table', 'items': [], 'err': None})
+                continue
             if isinstance(what, dict):                  # {'set': {...}}: the caller changes settings between requests
                 for k, v in what['set'].items():
                     setattr(p, k, v)
